@@ -54,6 +54,25 @@ def blob_expected(x, cfg):
     return float(blob_cast(blob_of(x), (cfg or {}).get("blob_dtype")))
 
 
+def ll_plateau(x):
+    """Flat-topped: exactly 0.0 inside the disc of radius 5, decaying outside - accepted moves between plateau points tie EXACTLY in logL."""
+    x = np.asarray(x, dtype=float)
+    r2 = float(np.sum(x * x)) / 25.0
+    return 0.0 if r2 <= 1.0 else -3.0 * (r2 - 1.0)
+
+
+def ll_errsens(x):
+    """A likelihood whose value depends on the numpy error state of the CALLER: where exp overflows it returns -inf if the overflow is
+    raised (the user asked for that with np.seterr(over='raise')) and a finite value if it is ignored.  The library must evaluate the user's
+    function under the user's error state, not under one of its own."""
+    x = np.asarray(x, dtype=float)
+    try:
+        np.exp(np.float64(200.0) * np.float64(x[0]))
+    except FloatingPointError:
+        return -np.inf
+    return -0.125 * float(np.sum(x * x))
+
+
 def ll_gauss(x):
     x = np.asarray(x, dtype=float)
     return float(-0.5 * np.sum((x - 1.0) ** 2) / 4.0)
